@@ -10,7 +10,7 @@
  * vsnprintf: %s %c %x %X rendered faithfully; decimal conversions are rendered as one '#' per digit (the
  * digit characters themselves are libc's business) and recorded, so "position N" is checked on the value. */
 #ifndef MAXL
-#define MAXL 2
+#define MAXL 1
 #endif
 #ifndef ENV_MALLOC_CAP
 #define ENV_MALLOC_CAP 64
